@@ -268,6 +268,8 @@ class World:
             self.nested_calib = True
             self.probe("nested_calibration")
         entered = False
+        exit_failure = None
+        depth_before = self.depth
         saved_stdout = sys.stdout
         try:
             sys.stdout = io.StringIO()  # Calibration(debug=True) prints
@@ -281,10 +283,20 @@ class World:
                     self.depth -= 1
         except (InjectedFault, InjectedInterrupt, WorkloadError) as e:
             exc = e
+        except Exception as e:
+            # anything else can only come from the context manager itself (the body's own exceptions are all
+            # wrapped): __enter__/__exit__ raised, i.e. the block could not be left properly
+            exit_failure = e
+            exc = WorkloadError(e)
         finally:
             sys.stdout = saved_stdout
+        if entered and self.depth != depth_before:
+            self.depth = depth_before
         after = R.ambient_snapshot()
         self.judged("C13")
+        if exit_failure is not None:
+            self.probe("context_manager_raised")
+            self.violate("C13", "exit_raises", kind, {"exc": type(exit_failure).__name__, "at": O.quanto_site(exit_failure)}, f"leaving (or entering) the Calibration block raised {exit_failure!r}", p)
         diff = R.ambient_diff(before, after)
         # the kernel switch is disable_extensions' business (judged at its own outermost exit)
         diff.pop("_ext_enabled", None)
